@@ -117,10 +117,14 @@ func qfNames(t *Term) []string {
 // path condition) that talk about absolute index abs of the memory with base key.
 func (s *State) instantiate(key string, abs *Term) {
 	if s.spec {
+		// reads made while a contract is evaluated are places where later facts may be needed too
+		if r := s.root; r != nil && !r.spec && !abs.hasBound {
+			r.logRead(key, abs)
+		}
 		return
 	}
 	if !abs.hasBound {
-		s.readLog = append(s.readLog[:len(s.readLog):len(s.readLog)], traceRead{key, abs})
+		s.logRead(key, abs)
 	}
 	if len(s.qfActive) == 0 {
 		return
@@ -235,6 +239,23 @@ func (s *State) clone() *State {
 		n.text[k] = v
 	}
 	return n
+}
+
+func (s *State) logRead(key string, abs *Term) {
+	if n := len(s.readLog); n > 0 && s.readLog[n-1].key == key && s.readLog[n-1].abs.String() == abs.String() {
+		return
+	}
+	s.readLog = append(s.readLog[:len(s.readLog):len(s.readLog)], traceRead{key, abs})
+}
+
+// instantiateAtLoggedReads: facts about the memory with this base that became active just now are instantiated at
+// the reads of that memory made so far.
+func (s *State) instantiateAtLoggedReads(key string) {
+	for _, rd := range append([]traceRead{}, s.readLog...) {
+		if rd.key == key {
+			s.instantiate(rd.key, rd.abs)
+		}
+	}
 }
 
 func (s *State) assumeT(t *Term) {
@@ -373,6 +394,12 @@ func (s *State) arrOf(base *Term) *Term {
 }
 
 func (s *State) readByte(sl SliceV, idx *Term) *Term {
+	if lit, ok := litTable[sl.Base.String()]; ok {
+		// a byte of a string literal at a constant index
+		if at := Add(sl.Off, idx); at.IsConst() && at.Uint() < uint64(len(lit)) {
+			return BVu(uint64(lit[at.Uint()]), 8)
+		}
+	}
 	if sl.Arr != nil {
 		return Select(sl.Arr, Add(sl.Off, idx), 8)
 	}
